@@ -27,8 +27,10 @@ def render(f, v):
         return None
     s = stem(f, v["k"])
     # optional syntax: an include statement may sit inside a block (same line, so that line i is include i)
-    nest = ['%s', 'if true then { %s }', '%s', 'foreach i_ = [1] in { %s }', 'let q_ = 1 in { %s }']
-    lines = [nest[zlib.crc32(("%s/%s/%d/%d/%s" % (f[0], f[1], v["k"], i, n)).encode()) % len(nest)] % ('include "%s.td"' % n) for i, n in enumerate(v["incs"])]
+    nest = ['%s', 'if true then { %s }', '%s', 'foreach i_ = [1] in { %s }', 'let q_ = 1 in { %s }', 'defset list<int> ds_@ = { %s }',
+            'if false then { } else { %s }', 'let q_ = 1 in { if true then { defset list<int> ds_@ = { %s } } }', 'foreach i_ = [1] in let q_ = 1 in { %s }']
+    lines = [nest[zlib.crc32(("%s/%s/%d/%d/%s" % (f[0], f[1], v["k"], i, n)).encode()) % len(nest)].replace("@", "%s_%d" % (s, i)) % ('include "%s.td"' % n)
+             for i, n in enumerate(v["incs"])]
     lines.append("class M_%s;" % s)
     lines.append("def D_%s : M_%s;" % (s, s))
     if v["faulty"]:
@@ -66,6 +68,12 @@ def compare(exp, got, texts):
         f = e["file"]
         s = stem(f, e["k"])
         want_outline = ["M_" + s, "D_" + s] + (["X_" + s] if e["faulty"] else [])
+        g["outline"] = [n for n in g["outline"] if not n.startswith("ds_")]       # the defsets some include statements are nested in
+        if any("defset" in t for t in texts.values()):
+            # a def of a file included from inside a defset is listed under that defset, not in its own file's outline:
+            # with defsets around only the classes are compared (a file indexed twice still shows its class twice)
+            g["outline"] = [n for n in g["outline"] if n.startswith("M_")]
+            want_outline = [n for n in want_outline if n.startswith("M_")]
         if g["outline"] != want_outline:
             kind = "indexed-more-than-once" if len(g["outline"]) > len(want_outline) and set(g["outline"]) == set(want_outline) else (
                 "stale-version" if any(n.startswith("M_%s_%s_" % (f[0], f[1])) for n in g["outline"]) and g["outline"] != want_outline else "wrong")
